@@ -961,6 +961,19 @@ pub fn run(ctx: &mut Ctx) {
         for pre in ["X", " ", "_", "TLS_"] {
             judge_name(ctx, &names, "prepend", &format!("{}{}", pre, name));
         }
+        // the same suite under other naming conventions (RFC 6101 / JSSE "SSL_" spelling, prefix dropped, GnuTLS-style
+        // without "WITH", OpenSSL-style dashes, draft prefixes): none of them is a name of the registry
+        if let Some(rest) = name.strip_prefix("TLS_") {
+            for alias in [
+                format!("SSL_{}", rest), format!("SSL3_{}", rest), format!("ssl_{}", rest), format!("TLS1_{}", rest), format!("TLS13_{}", rest), format!("DTLS_{}", rest),
+                rest.to_string(), format!("TLS-{}", rest), name.replace('_', "-"), name.replace("_WITH_", "_"), rest.replace("_WITH_", "-").replace('_', "-"),
+                format!("TLS_{}", rest.replace("_WITH", "")), format!("OLD_{}", name), format!("{}_OLD", name), format!("TLS__{}", rest), format!("TLS {}", rest),
+            ] {
+                if alias != name {
+                    judge_name(ctx, &names, "alias-convention", &alias);
+                }
+            }
+        }
         let lower = name.to_lowercase();
         if lower != name {
             judge_name(ctx, &names, "lowercase", &lower);
